@@ -132,6 +132,8 @@ class Interp:
         self.site_oids = {}
         self._jc = {}
         self.slice_of = {}
+        self.slice_end_is_len = {}
+        self.int_text = {}
         self.parsed_from = {}
         self.seg = {}        # StrV ident -> segment list (symbolic text: literals, zero-padded numbers, ...)
         self.opaque_callables = False
